@@ -345,3 +345,20 @@ Proof.
   unfold rl_x_expand. cbn [flat_map fst snd]. change (Z.to_nat 1) with 1%nat. cbn [rl_rep].
   rewrite !app_nil_r, rl_esc_rep, <- !app_assoc. reflexivity.
 Qed.
+
+(* ---------- statements as used in Properties_C12.v ---------- *)
+Theorem rl_reader_limits_of_source :
+  rl_src_recognised = true /\ rl_src_ns_digits = 9 /\ rl_src_colon_window = 16 /\ rl_src_replay_maxlen = None /\
+  forall buf, rl_parse_log_lim rl_src_ns_digits rl_src_replay_maxlen buf = rl_parse_log buf.
+Proof.
+  destruct rl_src_reader_pinned as (A & B & C & D). repeat split; try assumption. exact rl_src_parse.
+Qed.
+
+Theorem rl_run_length_entries x :
+  rl_x_expand (rl_xe_enc x) = rl_enc_entry (rl_xe_entry x) /\
+  rl_xe_len x = Z.of_nat (length (rl_enc_entry (rl_xe_entry x))) /\
+  rl_frame_len (rl_xe_len x) = Z.of_nat (length (rl_frame (rl_enc_entry (rl_xe_entry x)))).
+Proof.
+  split; [apply rl_xe_enc_expand|]. split; [apply rl_xe_len_correct|].
+  rewrite rl_xe_len_correct. apply rl_frame_len_correct.
+Qed.
